@@ -15,6 +15,11 @@ CHECKS = {
    technique="TLA+ token machine for STACK WIN program strings (WinEval) and step machine for FPO (WinFpo) on u32 limbs, model-checked by TLC; every TLC state replayed through the real parser + SymbolFile::walk_frame with a CfiStackWalker-like mock",
    text="The documented STACK WIN semantics (variables, assignment, .undef, the '=tok' spelling, predefined constants incl. the '@' rule for .raSearch, 32-bit wrapping, the FPO formulae with the leftover-return-address skip, sums past 2^32 fail cleanly) are an explicit TLA+ specification. TLC enumerates every program up to a length bound over 7 register/size instances and every FPO configuration of a size grid, checks design invariants (only the six documented registers are reported, nothing is forwarded implicitly, caller esp above callee esp), and each state is executed on the real code and compared for equality incl. the caller's validity set.",
    note="Trusted: TLC, the transcription of walker.rs's module docs into WinEval.tla/WinFpo.tla, Words.tla (self-tested each run), the mock FrameWalker in replay_win.rs (mirrors CfiStackWalker's forwarding/clear contract). Exhaustive only within MaxLen and the grids. Two open known findings (no-op '$'-prefixed clear) are listed in known-findings.json; a fix: commit repaired the size-overflow panics."),
+ "C08": dict(
+   level="model_checking", design_ref="DESIGN.md section 5 'C08'",
+   technique="TLA+ specification of into_rangemap_safe / memory_range constructors / STACK WIN overlap repair (RangeMap.tla) model-checked by TLC with the C08 predicates as invariants; every enumerated entry sequence replayed into 13 kinds of real tables; differing cases and seeded random u64 tables decided by TLC evaluating the predicates on the recorded real tables (Trace_RangeMap.tla, exact u64 on limbs)",
+   text="TLC enumerates every sequence of up to MaxLen (base,size,value) entries over a small address domain that contains stand-ins for u64::MAX-1 and u64::MAX, checks BuildTotal/Sound/SortedDisjoint/CompleteForIsolated/UnloadedExact on the specified table, and the harness builds each sequence into the real module, unloaded-module, memory, memory64, memory-info, maps lists (directly and through dumps written by a frozen vendored writer) and symbol-file FUNC/line/STACK CFI/STACK WIN tables and queries every address. Equal to the model's table => predicates hold by the model check; otherwise TLC evaluates the predicates on the observed real table (violation) or reports drift. Random u64 tables are observed and checked the same way.",
+   note="Trusted: TLC, RangeMap.tla/Trace_RangeMap.tla, Words.tla (self-tested each run), the order-isomorphism between the small domain and u64, harness/src/rm.rs (plumbing only), frozen writer vendor/vf-synth. Completeness is checked at probed addresses only (whole small domain; boundaries +-1 for random tables). A fix: commit (d8a0445) repaired ranges ending at 2^64-1."),
 }
 
 NA_DEFAULT = "check not built yet (work in progress; DESIGN.md section 5 has the planned specification)"
